@@ -117,6 +117,9 @@ class DynamicComponent(Component):
         # may have already left the `{% for %}`, `{% with %}` or `{% fill %}` blocks (or parent components) inside
         # which the dynamic component was used. So we remember the Context as it is now.
         self._input_context = snapshot_context(self.input.context)
+        # Same for the Context in which the dynamic component was used, which the inner component uses
+        # for rendering the slot fills (with the "isolated" context behavior).
+        self._outer_context = snapshot_context(self.outer_context) if self.outer_context is not None else None
 
         return {
             "comp_class": comp_class,
@@ -135,7 +138,7 @@ class DynamicComponent(Component):
 
         comp = comp_class(
             registered_name=self.registered_name,
-            outer_context=self.outer_context,
+            outer_context=self._outer_context,
             registry=self.registry,
         )
         output = comp.render(
